@@ -494,7 +494,7 @@ func init() {
 		return d
 	}
 	intrinsics["time.Sleep"] = func(ex *Exec, fr *frame, fn *ssa.Function, args []Value) Value {
-		ex.yieldTimer()
+		ex.sleep(args[0])
 		return nil
 	}
 	intrinsics["os.Getenv"] = func(ex *Exec, fr *frame, fn *ssa.Function, args []Value) Value {
@@ -504,6 +504,49 @@ func init() {
 		return ex.intConst(4242)
 	}
 	registerSyncIntrinsics()
+	// sort.Slice / sort.SliceStable: insertion sort driven by the real less closure
+	sortSlice := func(ex *Exec, fr *frame, fn *ssa.Function, args []Value) Value {
+		iv, ok := args[0].(Iface)
+		if !ok {
+			panic(unsupported{"sort.Slice argument"})
+		}
+		sl, ok := iv.V.(SliceV)
+		if !ok {
+			panic(unsupported{"sort.Slice of non-cell slice"})
+		}
+		less := args[1]
+		a := sl.A
+		for i := 1; i < len(a); i++ {
+			for j := i; j > 0; j-- {
+				r := ex.call(fr, less, []Value{ex.intConst(int64(j)), ex.intConst(int64(j - 1))}).(*T)
+				if !ex.branch(r) {
+					break
+				}
+				tmp := ex.copyVal(a[j])
+				ex.storeInto(&a[j], ex.copyVal(a[j-1]))
+				ex.storeInto(&a[j-1], tmp)
+			}
+		}
+		return nil
+	}
+	intrinsics["sort.Slice"] = sortSlice
+	intrinsics["sort.SliceStable"] = sortSlice
+	intrinsics["sort.Strings"] = func(ex *Exec, fr *frame, fn *ssa.Function, args []Value) Value {
+		sl := args[0].(SliceV)
+		a := sl.A
+		for i := 1; i < len(a); i++ {
+			for j := i; j > 0; j-- {
+				lt := ex.c.Slt(ex.strCmp(a[j].(View), a[j-1].(View)), ex.intConst(0))
+				if !ex.branch(lt) {
+					break
+				}
+				a[j], a[j-1] = a[j-1], a[j]
+			}
+		}
+		return nil
+	}
+	intrinsics["os/signal.Notify"] = func(ex *Exec, fr *frame, fn *ssa.Function, args []Value) Value { return nil }
+	intrinsics["os/signal.Stop"] = func(ex *Exec, fr *frame, fn *ssa.Function, args []Value) Value { return nil }
 }
 
 func (ex *Exec) clz(x *T, w int) *T {
@@ -522,6 +565,10 @@ func (ex *Exec) clz(x *T, w int) *T {
 
 func (ex *Exec) timeNow() Value {
 	c := ex.c
+	if ex.h.VirtualClock && ex.sched != nil {
+		// concrete discrete-event clock (advances when timers fire)
+		return ex.timeFromUnixNano(ex.intConst(1_600_000_000_000_000_000 + ex.sched.vnow))
+	}
 	ex.nowCount++
 	t := c.Var(fmt.Sprintf("now%d", ex.nowCount), BV(64)) // unix nanoseconds
 	lo := ex.intConst(1_500_000_000_000_000_000)
